@@ -4,7 +4,7 @@
 set -e
 cd "$(dirname "$(readlink -f "$0")")"
 PY="${VERIF_PYTHON:-/venv/bin/python}"
-mkdir -p out/jobs out/replays .cache/jax evidence
+mkdir -p out/jobs out/replays out/cache evidence
 PYTHONPATH="${VERIF_REPO:-/repo}" JAX_PLATFORMS=cpu "$PY" - <<'PYEOF'
 import warnings; warnings.simplefilter("ignore")
 import jax, equinox, optax, numpy, jinns
